@@ -242,8 +242,9 @@ fn run_inner(property: &str, thorough: bool, deadline: Instant) -> Vec<PartOut> 
         "C01" => {
             // A1
             // cheapest first: unused time flows to the later, larger searches
-            let depths: [(&str, u32); 4] = if thorough {
+            let depths: [(&str, u32); 5] = if thorough {
                 [
+                    ("mix3", 9),
                     ("full10", 4),
                     ("full5", 6),
                     ("unordered5", 14),
@@ -251,6 +252,7 @@ fn run_inner(property: &str, thorough: bool, deadline: Instant) -> Vec<PartOut> 
                 ]
             } else {
                 [
+                    ("mix3", 6),
                     ("full10", 3),
                     ("full5", 4),
                     ("unordered5", 6),
@@ -273,7 +275,7 @@ fn run_inner(property: &str, thorough: bool, deadline: Instant) -> Vec<PartOut> 
                     "insert": "off x len in 1..=3 (off+len <= stream) x allocation_size in {len, 40000}; plus empty frames at a few offsets",
                     "read": "ordered max in {MAX,1,2}; unordered max in {MAX,1}; each preceded by ensure_ordering",
                     "clear": 1,
-                    "profiles": "full10 = 10-byte stream, whole alphabet; unordered10 = same after a switch to unordered mode; full5 / unordered5 = the same two on a 5-byte stream (deeper)",
+                    "profiles": "mix3 = 3-byte stream, whole alphabet incl. ordered->unordered switches at any point, searched deepest; full10 = 10-byte stream, whole alphabet; unordered10 = same after a switch to unordered mode; full5 / unordered5 = the same two on a 5-byte stream (deeper)",
                 }),
                 thorough,
                 sub_deadline(deadline, 2),
